@@ -20,10 +20,28 @@ MUT = os.path.join(VERIF, "mutants")
 
 
 def corpus():
+    """hand-written mutants (mutants/index.json) + the seeded changes kept under /verif/seeded (each with the rules that were seen to fire)"""
+    out = {}
     ip = os.path.join(MUT, "index.json")
-    if not os.path.exists(ip):
-        return {}
-    return json.load(open(ip))
+    if os.path.exists(ip):
+        for k, v in json.load(open(ip)).items():
+            v = dict(v)
+            v["path"] = os.path.join(MUT, k)
+            out[k] = v
+    sd = os.path.join(VERIF, "seeded")
+    if os.path.isdir(sd):
+        for d in sorted(os.listdir(sd)):
+            mp = os.path.join(sd, d, "meta.json")
+            pp = os.path.join(sd, d, "patch.diff")
+            if not (os.path.exists(mp) and os.path.exists(pp)):
+                continue
+            meta = json.load(open(mp))
+            det = meta.get("detected_by") or {}
+            props = sorted(set([meta["property"]] + [k for k, v in det.items() if isinstance(v, list) and v]))
+            rules = sorted(set(r for v in det.values() if isinstance(v, list) for r in v))
+            out["seeded-" + d] = {"properties": props, "expect_rules": rules, "note": "seeded by an independent sub-agent for %s" % meta["property"], "path": pp,
+                                  "expect_by_prop": {k: v for k, v in det.items() if isinstance(v, list)}}
+    return out
 
 
 def scratch_copy(repo):
@@ -79,9 +97,11 @@ def run(prop, repo="/repo", only=None):
             continue
         if only and only not in fname:
             continue
-        patch = os.path.join(MUT, fname)
+        patch = meta.get("path") or os.path.join(MUT, fname)
         if not os.path.exists(patch):
             continue
+        if "expect_by_prop" in meta and not meta["expect_by_prop"].get(prop):
+            continue   # a seeded change is replayed only for the properties whose check was seen to catch it
         d = scratch_copy(repo)
         try:
             ok, out = apply_patch(d, patch)
